@@ -451,6 +451,10 @@ func engineStatic(which string) engineFn {
 				} else {
 					g.corruptRefs(ff)
 				}
+				if ag, rt := ff.table("agency.txt"), ff.table("routes.txt"); len(ag.rows) == 1 && len(rt.rows) > 0 && g.coin(0.6) {
+					// a feed with ONE agency and a route that names another one: the reference dangles, the sole agency is not a default for it
+					rt.rows[g.r.Intn(len(rt.rows))]["agency_id"] = g.pick([]string{"no-such-agency", ag.rows[0]["agency_id"] + " ", "AG"})
+				}
 				p := canonicalPresentation(ff)
 				ms := renderFeed(nil, p, ff)
 				r := runStatic(ms, false, inherit)
@@ -550,6 +554,48 @@ func engineStatic(which string) engineFn {
 						addCase(inherit, md, rd.s, feedZones(dup))
 					}
 				}
+				if i == 1 {
+					// a feed with more than ten thousand trips, every trip's rows in descending sequence order
+					big := f.clone()
+					tp, stt := big.table("trips.txt"), big.table("stop_times.txt")
+					tmpl := tp.rows[0]
+					stopID := big.table("stops.txt").rows[0]["stop_id"]
+					for k, nb := 0, 10050+g.r.Intn(300); k < nb; k++ {
+						r := srow{}
+						for kk, vv := range tmpl {
+							r[kk] = vv
+						}
+						r["trip_id"] = fmt.Sprintf("bulk-%d", k)
+						tp.rows = append(tp.rows, r)
+						for _, q := range []int{3, 2, 1} {
+							stt.rows = append(stt.rows, srow{"trip_id": r["trip_id"], "arrival_time": "10:00:00", "departure_time": "10:00:30", "stop_id": stopID, "stop_sequence": fmt.Sprint(q),
+								"stop_headsign": "", "pickup_type": "0", "drop_off_type": "0", "continuous_pickup": "1", "continuous_drop_off": "1", "shape_dist_traveled": "", "timepoint": "1"})
+						}
+					}
+					mb := renderFeed(nil, canonicalPresentation(big), big)
+					if rb := runStatic(mb, false, inherit); rb.err == nil && !rb.cr.panicked && !rb.cr.hung {
+						ctx.evaluations++
+						bad := 0
+						firstBad := ""
+						for ti := range rb.s.Trips {
+							sts := rb.s.Trips[ti].StopTimes
+							for k := 1; k < len(sts); k++ {
+								if sts[k-1].StopSequence > sts[k].StopSequence {
+									if bad == 0 {
+										firstBad = rb.s.Trips[ti].ID
+									}
+									bad++
+									break
+								}
+							}
+						}
+						if bad > 0 {
+							ctx.violate("c08-sorted", fmt.Sprintf("in a feed with %d trips, %d trips (first: %q) have stop times that are not in ascending stop_sequence", len(rb.s.Trips), bad, firstBad),
+								map[string]any{"members": "the feed below plus 10050+ trips bulk-0.. each with rows 3,2,1 in stop_times.txt", "base_members": describeMembers(ms0)})
+						}
+						stats["big_trip_tables"]++
+					}
+				}
 				// order clauses themselves (file order kept, sequences sorted, shapes by id)
 				if d := diffLines(baseDump, denote(f, inherit)); d != "" {
 					ctx.violate("c08-order", "collection order is not file order / sorted by sequence / shapes by id: "+d, replay)
@@ -592,7 +638,18 @@ func engineStatic(which string) engineFn {
 					stats["inserted:"+cause] += len(ins1)
 				}
 				p := canonicalPresentation(ff)
-				if g.coin(0.4) {
+				if g.coin(0.12) {
+					// a very wide table: dozens of unknown columns in front of the known ones (a required column at position 64 and beyond)
+					for _, tn := range []string{"agency.txt", "stops.txt", "routes.txt", "trips.txt"} {
+						var wide []string
+						for k, nw := 0, 60+g.r.Intn(12); k < nw; k++ {
+							nm := fmt.Sprintf("pad_%d", k)
+							wide = append(wide, nm)
+							p.extraCell[nm] = ""
+						}
+						p.colOrder[tn] = append(wide, p.colOrder[tn]...)
+					}
+				} else if g.coin(0.4) {
 					// unknown extra columns, some of them sharing one name (",x_dup,x_dup" or two empty header cells): a row's
 					// cell contents are all its cells, however the columns are called
 					for k, nm := 1+g.r.Intn(3), g.pick([]string{"x_dup", "", "agency_phone2"}); k > 0; k-- {
